@@ -77,6 +77,14 @@ class NT:
                         if x[0] == "call" and (x[1] or "").endswith("strlen::buf_strlen") and x[2] and self.same_source(x[2][0], a[0]):
                             return True
                     return False
+                if isinstance(rng, tuple) and rng[0] == "agg" and str(rng[1]).endswith("RangeTo") and rng[3]:
+                    # the exclusive form of the same prefix: b[..buf_strlen(b)? + 1]
+                    end = strip_casts(rng[3][0])
+                    if isinstance(end, tuple) and end[0] == "bin" and end[1] == "Add" and const_value(end[3]) == 1:
+                        for x in walk_deep(end[2], self.prov):
+                            if x[0] == "call" and (x[1] or "").endswith("strlen::buf_strlen") and x[2] and self.same_source(x[2][0], a[0]):
+                                return True
+                    return False
             return False
         if k == "var":
             ds = self.prov.expand(e)
@@ -138,6 +146,13 @@ class NT:
                                     v = self.last_of(x)
                                     if v is not None:
                                         st2[v] = "NT"
+                        # the same test as a comparison of the Option: `v.last() == Some(&0)` / `!= Some(&0)` on its false edge
+                        if f[0] == "truth" and isinstance(f[1], tuple) and f[1][0] == "call" and (f[1][1] or "").endswith(("PartialEq::eq", "PartialEq::ne")) and len(f[1][2]) == 2:
+                            holds = bool(f[2]) == (f[1][1] or "").endswith("::eq")
+                            for x, y in ((f[1][2][0], f[1][2][1]), (f[1][2][1], f[1][2][0])):
+                                v = self.last_of(x)
+                                if v is not None and holds and _is_some_ref_nul(y, self.prov):
+                                    st2[v] = "NT"
                 old = IN.get(e.dst)
                 if old is None:
                     IN[e.dst] = st2
@@ -239,6 +254,11 @@ class NT:
                                 for z in walk_deep(ys[2], self.prov):
                                     if z[0] == "call" and (z[1] or "").endswith("::len") and z[2]:
                                         has_last = True
+                            # the same position test moved across: ind + 1 == len
+                            xs = strip_casts(x)
+                            if isinstance(xs, tuple) and xs[0] == "bin" and xs[1] == "Add" and const_value(xs[3]) == 1 and any(z[0] == "call" and (z[1] or "").endswith("Iterator::next") for z in walk_deep(xs[2], self.prov)) and \
+                                    isinstance(ys, tuple) and ys[0] == "call" and (ys[1] or "").endswith("::len"):
+                                has_last = True
         if has_zero and has_last:
             return True
         # the same test through an iterator adaptor: the FIRST NUL's position (iter().position(|b| *b == 0)) is the last index:
@@ -267,6 +287,16 @@ class NT:
                             if want_sub == 1 and isinstance(ys, tuple) and ys[0] == "bin" and ys[1] == "Sub" and const_value(ys[3]) == 1 and is_len(ys[2]):
                                 return True
         return False
+
+
+def _is_some_ref_nul(e, prov):
+    """a constant `Some(&0u8)` (promoted): its memory is one pointer whose pointee is the single byte 0"""
+    for z in walk_deep(e, prov, limit=30):
+        if z[0] == "const" and len(z) > 5 and z[5] and len(z[5]) == 1 and tuple(z[5][0][1]) == (0,) and "Option<&u8>" in str(z[3]).replace(" ", "").replace("'static", "").replace("&'_", "&"):
+            return True
+        if z[0] == "const" and len(z) > 5 and z[5] and len(z[5]) == 1 and tuple(z[5][0][1]) == (0,) and "Option" in str(z[3]):
+            return True
+    return False
 
 
 def _first_nul_position(e, prov, prog):
@@ -363,7 +393,8 @@ def run_one(ck, prog):
                 for f in ctx.edge_facts(e):
                     if f[0] == "cmp" and f[1] == "Ne":
                         ys = [strip_casts(f[2]), strip_casts(f[3])]
-                        if any(isinstance(y, tuple) and y[0] == "bin" and y[1] == "Sub" and const_value(y[3]) == 1 for y in ys) or \
+                        moved = any(isinstance(y, tuple) and y[0] == "bin" and y[1] == "Add" and const_value(y[3]) == 1 for y in ys) and any(isinstance(y, tuple) and y[0] == "call" and (y[1] or "").endswith("::len") for y in ys)
+                        if moved or any(isinstance(y, tuple) and y[0] == "bin" and y[1] == "Sub" and const_value(y[3]) == 1 for y in ys) or \
                                 any(_first_nul_position(y, ctx.prov, prog) is not None for y in ys):
                             r = ctx.cfg.reachable_from(e.dst)
                             errs = [b for b in r if any(s["k"] == "assign" and s["dst"]["l"] == 0 and s["rv"]["k"] == "agg" and s["rv"].get("variant") == "Err" for s in ctx.cfg.block(b)["stmts"])]
